@@ -1,2 +1,92 @@
-(** C05 — property theorems only. *)
-From V Require Import Base.Util Gql.Ast C05.Model C05.Spec C05.Proofs.
+(** C05 — property theorems only.  Each is closed by [exact] of a lemma proved in Proofs*.v and followed by
+    [Print Assumptions].  [check_doc] is the model of check_type_system_document (C05/Model.v) that the
+    correspondence run ties to /repo; [spec_valid], [rule_ok] are the specification side (C05/Spec.v). *)
+From V Require Import Base.Util Gql.Ast C05.Model C05.Spec C05.Witness
+     C05.Proofs C05.Proofs2 C05.Proofs3 C05.Proofs4 C05.Proofs5 C05.Proofs6 C05.Proofs7 C05.Proofs8
+     C05.Proofs9 C05.Proofs10 C05.Proofs11.
+
+(** no false alarm: a document valid under the specification gets no diagnostic, unless it has an additional
+    non-null argument with a default value (the known deviation, refuted below) *)
+Theorem C05_complete : forall doc,
+  spec_valid doc = true -> ok_extra_args_nullable doc = true -> check_doc doc = [].
+Proof. exact complete. Qed.
+Print Assumptions C05_complete.
+
+Definition C05_complete_full : Prop := forall doc, spec_valid doc = true -> check_doc doc = [].
+Theorem C05_complete_extra_default_refuted : exists doc, spec_valid doc = true /\ check_doc doc <> [].
+Proof.
+  exists w_extra_default. destruct extra_default_refuted as [H1 [H2 H3]]. split; [exact H1 | rewrite H2; exact H3].
+Qed.
+Print Assumptions C05_complete_extra_default_refuted.
+
+(** every implemented rule is enforced: no diagnostics => the rule is respected (two rules in the scope the
+    implementation gives them, see the refutations) *)
+Theorem C05_sound : forall doc,
+  check_doc doc = [] -> unique_names doc = true -> ok_app_arg_unique doc = true ->
+  forall r, rule_ok_impl r doc = true.
+Proof. exact sound_all. Qed.
+Print Assumptions C05_sound.
+
+(** the rules that need no premise about the rest of the document *)
+Theorem C05_sound_local : forall doc,
+  check_doc doc = [] ->
+  ok_reserved doc = true /\ ok_dup_field doc = true /\ ok_dup_arg doc = true /\ ok_dup_input_field doc = true /\
+  ok_dup_enum_value doc = true /\ ok_dup_union_member doc = true /\ ok_input_in_output doc = true /\
+  ok_output_in_input doc = true /\ ok_directive_unknown doc = true /\ ok_directive_misplaced doc = true /\
+  ok_directive_repeated doc = true.
+Proof.
+  intros doc H. repeat split.
+  - exact (sound_reserved doc H). - exact (sound_dup_field doc H). - exact (sound_dup_arg doc H).
+  - exact (sound_dup_input_field doc H). - exact (sound_dup_enum_value doc H). - exact (sound_dup_union_member doc H).
+  - exact (sound_input_in_output doc H). - exact (sound_output_in_input doc H). - exact (sound_directive_unknown doc H).
+  - exact (sound_directive_misplaced doc H). - exact (sound_directive_repeated doc H).
+Qed.
+Print Assumptions C05_sound_local.
+
+Definition C05_sound_full : Prop :=
+  forall doc, check_doc doc = [] -> unique_names doc = true -> ok_app_arg_unique doc = true ->
+  forall r, rule_ok r doc = true.
+Theorem C05_sound_directive_args_int_range_refuted :
+  exists doc, check_doc doc = [] /\ unique_names doc = true /\ ok_app_arg_unique doc = true /\
+              rule_ok RDirectiveArgs doc = false.
+Proof. exists w_int_range. destruct int_range_refuted as [A [B [C [D _]]]]. repeat split; assumption. Qed.
+Print Assumptions C05_sound_directive_args_int_range_refuted.
+Theorem C05_sound_directive_recursive_nested_refuted :
+  exists doc, check_doc doc = [] /\ unique_names doc = true /\ ok_app_arg_unique doc = true /\
+              rule_ok RDirectiveRecursive doc = false.
+Proof. exists w_nested. destruct nested_recursion_refuted as [A [B [C [D _]]]]. repeat split; assumption. Qed.
+Print Assumptions C05_sound_directive_recursive_nested_refuted.
+
+(** the directive-recursion search is exact on the graph it walks, and the fuel the model gives it suffices *)
+Theorem C05_directive_recursion_exact : forall doc d,
+  unique_names doc = true -> In d (directives_of doc) ->
+  (check_directive_recursion doc d = [] <-> forall n y, reach doc (S n) d y -> dname y <> dname d).
+Proof.
+  intros doc d Hu Hd. split.
+  - intros H. apply recursion_search_complete; [|exact H]. unfold canon, dname.
+    rewrite (last_directive_lookup doc _ Hu). apply lookup_d_self; assumption.
+  - apply recursion_search_sound. exact Hd.
+Qed.
+Print Assumptions C05_directive_recursion_exact.
+Theorem C05_recursion_fuel_enough : forall doc d e,
+  In d (directives_of doc) -> In e (check_directive_recursion doc d) -> e_msg e <> EOutOfFuel.
+Proof. intros doc d e Hd He. exact (recursion_search_fuel doc d Hd e He). Qed.
+Print Assumptions C05_recursion_fuel_enough.
+
+(** is_subtype decides the specification's IsValidImplementationFieldType on defined types *)
+Theorem C05_is_subtype_covariant_correct : forall doc a b,
+  check_doc doc = [] -> unique_names doc = true ->
+  defined doc (base_name a) = true -> defined doc (base_name b) = true ->
+  (is_subtype doc a b = Some true <-> valid_impl_field_type doc a b = true).
+Proof.
+  intros doc a b Hc Hu Da Db. split; [apply is_subtype_true; assumption|]. intros H.
+  pose proof (is_subtype_complete doc a b H) as Hn.
+  destruct (is_subtype doc a b) as [[]|] eqn:E; [reflexivity | exfalso; apply Hn; reflexivity|].
+  apply is_subtype_none in E as [E|E]; congruence.
+Qed.
+Print Assumptions C05_is_subtype_covariant_correct.
+
+(** two definitions of one kind with one name never get past resolve_schema_extensions *)
+Theorem C05_resolve_rejects_same_kind_dup : forall doc, same_kind_dup doc = true -> resolve_fails doc = true.
+Proof. exact resolve_rejects_same_kind_dup. Qed.
+Print Assumptions C05_resolve_rejects_same_kind_dup.
